@@ -170,6 +170,98 @@ theorem builtin_sound {f : String} {ps : List Ty} {r : Ty} {args : List Val} {w 
   · obtain ⟨x, rfl⟩ := VT_float ha1
     rw [b_f64] at hr; simp at hr; obtain ⟨rfl, _⟩ := hr; constructor
 
+theorem VTs_two {a : List Val} {t1 t2 : Ty} (h : VTs S P a [t1, t2]) : ∃ x y, a = [x, y] ∧ VT S P x t1 ∧ VT S P y t2 := by
+  cases h with
+  | cons h1 h2 => obtain ⟨y, rfl, hy⟩ := VTs_single h2; exact ⟨_, _, rfl, h1, hy⟩
+
+theorem VTs_three {a : List Val} {t1 t2 t3 : Ty} (h : VTs S P a [t1, t2, t3]) :
+    ∃ x y z, a = [x, y, z] ∧ VT S P x t1 ∧ VT S P y t2 ∧ VT S P z t3 := by
+  cases h with
+  | cons h1 h2 => obtain ⟨y, z, rfl, hy, hz⟩ := VTs_two h2; exact ⟨_, _, _, rfl, h1, hy, hz⟩
+
+/-- the array / vector builtins respect value typing -/
+theorem poly_sound {f : String} {argTys : List Ty} {ty : Ty} {θ : Subst} {args : List Val} {w w' : World} {v : Val}
+    (hp : polyOk f argTys ty = true) (ha : VTs S P args (substTys θ argTys))
+    (hr : (match builtin f args w with
+           | some r => r
+           | none => .ok .unit { w with externs := w.externs ++ [f] }) = .ok v w') :
+    VT S P v (substTy θ ty) := by
+  unfold polyOk at hp
+  split at hp
+  · -- array_get
+    have := tyEq hp; subst this
+    simp only [substTys, substTy] at ha
+    obtain ⟨x, y, rfl, hx, hy⟩ := VTs_two ha
+    obtain ⟨vs, rfl, _, hvs⟩ := VT_array hx
+    obtain ⟨i, rfl⟩ := VT_int hy
+    simp only [builtin] at hr
+    by_cases hi : i < 0
+    · simp [hi] at hr
+    · cases hu : vs[i.toNat]? with
+      | none => simp [hi, hu] at hr
+      | some u =>
+        simp [hi, hu] at hr
+        obtain ⟨rfl, _⟩ := hr
+        exact VTall_get hvs _ _ hu
+  · -- array_set
+    simp only [Bool.and_eq_true] at hp
+    have h1 := tyEq hp.1; subst h1
+    have h2 := tyEq hp.2; subst h2
+    simp only [substTys, substTy] at ha
+    obtain ⟨x, y, z, rfl, hx, hy, hz⟩ := VTs_three ha
+    obtain ⟨vs, rfl, hlen, hvs⟩ := VT_array hx
+    obtain ⟨i, rfl⟩ := VT_int hy
+    simp only [builtin] at hr
+    by_cases hc : (decide (i < 0) || decide (i.toNat ≥ vs.length)) = true
+    · simp [hc] at hr
+    · simp only [hc] at hr
+      simp at hr
+      obtain ⟨rfl, _⟩ := hr
+      simp only [substTy]
+      exact .array (VTall_set hvs _ _ hz) (by simpa using hlen)
+  · -- vec_new
+    simp only [substTys] at ha
+    cases ha
+    simp [builtin] at hr
+    obtain ⟨rfl, _⟩ := hr
+    cases ty <;> simp at hp
+    simp only [substTy]; exact .vec .nil
+  · -- vec_push
+    simp only [Bool.and_eq_true] at hp
+    have h1 := tyEq hp.1; subst h1
+    have h2 := tyEq hp.2; subst h2
+    simp only [substTys, substTy] at ha
+    obtain ⟨x, y, rfl, hx, hy⟩ := VTs_two ha
+    obtain ⟨vs, rfl, hvs⟩ := VT_vec hx
+    simp [builtin] at hr
+    obtain ⟨rfl, _⟩ := hr
+    simp only [substTy]
+    exact .vec (VTall_append hvs _ hy)
+  · -- vec_get
+    have := tyEq hp; subst this
+    simp only [substTys, substTy] at ha
+    obtain ⟨x, y, rfl, hx, hy⟩ := VTs_two ha
+    obtain ⟨vs, rfl, hvs⟩ := VT_vec hx
+    obtain ⟨i, rfl⟩ := VT_int hy
+    simp only [builtin] at hr
+    by_cases hi : i < 0
+    · simp [hi] at hr
+    · cases hu : vs[i.toNat]? with
+      | none => simp [hi, hu] at hr
+      | some u =>
+        simp [hi, hu] at hr
+        obtain ⟨rfl, _⟩ := hr
+        exact VTall_get hvs _ _ hu
+  · -- vec_len
+    have := tyEq hp; subst this
+    simp only [substTys, substTy] at ha
+    obtain ⟨x, rfl, hx⟩ := VTs_single ha
+    obtain ⟨vs, rfl, hvs⟩ := VT_vec hx
+    simp [builtin] at hr
+    obtain ⟨rfl, _⟩ := hr
+    simp only [substTy]; exact .int _ _ _ (by decide)
+  · cases hp
+
 /-! ### constructors -/
 
 theorem isEnumTy_subst (θ : Subst) (t : Ty) (h : isEnumTy t = true) : isEnumTy (substTy θ t) = true := by
